@@ -2,6 +2,7 @@
 //! evidence writer, replay reader, known-finding matcher and watchdog.
 
 pub mod bytes;
+pub mod dict;
 pub mod fuzzrun;
 pub mod gen;
 
